@@ -1,8 +1,8 @@
 package sim
 
 import (
-	"context"
 	"os"
+	"sync/atomic"
 	"os/exec"
 	"strings"
 	"time"
@@ -22,15 +22,62 @@ func isDeathSig(sig string) bool {
 
 // execOutcome executes a script file in a child process (`tabsim exec-one`)
 // and classifies what happened: "ok", "hang", or "crash:<...>".
-func execOutcome(exe, path string, timeout time.Duration, env ...string) string {
-	ctx, cancel := context.WithTimeout(context.Background(), timeout)
-	defer cancel()
-	cmd := exec.CommandContext(ctx, exe, "exec-one", path)
+//
+// timeout is the limit for ONE execution (each run of the prelude, then the
+// script): the child watches its own executions (WatchExecutions) and exits 77
+// when one of them does not end.  The parent only keeps an outer limit that
+// allows for the whole prelude; reaching that is not a verdict ("slow").
+func execOutcome(exe, path string, timeout time.Duration, prelude int, env ...string) string {
+	_ = prelude
+	cmd := exec.Command(exe, "exec-one", path)
 	cmd.Env = append(os.Environ(), env...)
-	out, err := cmd.CombinedOutput()
-	if ctx.Err() != nil {
-		return "hang"
+	var stderr strings.Builder
+	cmd.Stderr = &stderr
+	stdout, perr := cmd.StdoutPipe()
+	if perr != nil || cmd.Start() != nil {
+		return "exit"
 	}
+	// the child writes a line when it starts an execution (each run of the
+	// prelude, then the script); the limit applies to one execution, and it is
+	// counted in one-second ticks of this process, not in wall-clock time
+	var started int64
+	go func() {
+		buf := make([]byte, 4096)
+		for {
+			n, rerr := stdout.Read(buf)
+			for _, b := range buf[:n] {
+				if b == '\n' {
+					atomic.AddInt64(&started, 1)
+				}
+			}
+			if rerr != nil {
+				return
+			}
+		}
+	}()
+	done := make(chan error, 1)
+	go func() { done <- cmd.Wait() }()
+	var err error
+	last, stuck := int64(-1), 0
+wait:
+	for {
+		select {
+		case err = <-done:
+			break wait
+		case <-time.After(time.Second):
+			if cur := atomic.LoadInt64(&started); cur == last {
+				stuck++
+			} else {
+				last, stuck = cur, 0
+			}
+			if time.Duration(stuck)*time.Second > timeout {
+				cmd.Process.Kill()
+				<-done
+				return "hang"
+			}
+		}
+	}
+	out := []byte(stderr.String())
 	if err == nil {
 		return "ok"
 	}
@@ -62,7 +109,7 @@ func minimizeDeath(exe string, s *Script, sig string, tmp string, hangTimeout ti
 		if cc.WriteFile(tmp) != nil {
 			return false
 		}
-		return s.Property+"/"+execOutcome(exe, tmp, timeout, env...) == sig
+		return s.Property+"/"+execOutcome(exe, tmp, timeout, preludeRuns(cc), env...) == sig
 	}
 	// confirmation gets three times the watchdog's limit: a run that is merely
 	// slow must end up as harness trouble, never as a reported hang
@@ -102,7 +149,7 @@ func deathWithPrelude(exe string, s *Script, sig string, tmp string, hangTimeout
 		if c.Clone().WriteFile(tmp) != nil {
 			return false
 		}
-		return s.Property+"/"+execOutcome(exe, tmp, timeout, env...) == sig
+		return s.Property+"/"+execOutcome(exe, tmp, timeout, preludeRuns(c), env...) == sig
 	}
 	c := s.Clone()
 	c.Prelude = pre
